@@ -541,6 +541,65 @@ def rule_MP13(rep, prog, q):
                     sample={"store": st.loc})
 
 
+def rule_MP14(rep, prog, q):
+    rid = rep.rule("C03-MP14", "a synchronous item runs without descending the hierarchy only where there is no hierarchy: the uncontended dispatch_sync / "
+                   "barrier_sync fast paths invoke the item directly only after finding the target's target NULL (the queue sits directly on a root queue) - for any "
+                   "deeper chain, whatever the width of the next level, they go through _dispatch_sync_recurse; and the lock-free direct invocation "
+                   "(_dispatch_sync_function_invoke) is reached only for a queue whose own do_targetq is NULL (a root queue) - a workloop is a base queue but "
+                   "serialises its items", floor=5)
+    def null_tests(fn, depth, root=("a", 0)):
+        """icmp of (do_targetq load chain of length `depth` starting at `root`) with null"""
+        out = []
+        for t in fn.all_insts():
+            if t.op != "icmp" or t.d["pred"] not in ("eq", "ne") or not any(o[0] == "n" for o in t.ops):
+                continue
+            l = fn.inst(t.ops[0])
+            d = 0
+            while l is not None and l.op in ("load", "bitcast"):
+                if l.op == "bitcast":
+                    l = fn.inst(l.ops[0])
+                    continue
+                if "do_targetq" not in prog.fields(l):
+                    break
+                d += 1
+                b = l.d["ptr"]["base"]
+                if root_ptr(fn, b) == root:
+                    if d == depth:
+                        out.append(t)
+                    break
+                l = fn.inst(list(root_ptr(fn, b))) if root_ptr(fn, b)[0] == "i" else None
+        return out
+    n = 0
+    for name, direct in (("_dispatch_barrier_sync_f_inline", "_dispatch_lane_barrier_sync_invoke_and_complete"), ("_dispatch_sync_f_inline", "_dispatch_sync_invoke_and_complete")):
+        fn = prog.fn(name)
+        rep.saw(fn)
+        tests = null_tests(fn, 2)
+        for c in calls_named(fn, direct):
+            n += 1
+            cx = paths.dom_ctx(fn, c)
+            ok = any(cx.truth.get(t.id) == (t.d["pred"] == "eq") for t in tests)
+            rep.require(rid, ok, c.loc, name, "sync-fast-path-skips-descent:%s" % name,
+                        "%s invokes the item directly (%s) at a point where dq->do_targetq->do_targetq was not established to be NULL: with a concurrent queue between "
+                        "the synced queue and a serial bottom the item runs holding only the top queue's lock and overlaps the items of the serial queue below"
+                        % (name, direct), sample={"fn": name, "tests": len(tests)})
+    for name in ("dispatch_async_and_wait_f", "dispatch_barrier_async_and_wait_f", "_dispatch_sync_f_slow", "dispatch_async_and_wait", "dispatch_barrier_async_and_wait"):
+        fn = prog.fn(name, required=False)
+        if fn is None:
+            continue
+        for c in calls_named(fn, "_dispatch_sync_function_invoke"):
+            n += 1
+            rep.saw(fn)
+            tests = null_tests(fn, 1, root_ptr(fn, c.ops[0]))
+            cx = paths.dom_ctx(fn, c)
+            ok = any(cx.truth.get(t.id) == (t.d["pred"] == "eq") for t in tests)
+            rep.require(rid, ok, c.loc, name, "lockless-invoke-on-non-root:%s" % name,
+                        "%s runs the item with _dispatch_sync_function_invoke (no lock at all) at a point where dq->do_targetq was not established to be NULL: called "
+                        "on a workloop (a base queue, but not a root queue) the item overlaps the workloop's own items and those of every queue targeting it" % name,
+                        sample={"fn": name, "tests": len(tests)})
+    if n < 5:
+        rep.unknown(rid, "fewer than 5 direct-invocation sites found (%d)" % n)
+
+
 def rule_WL10(rep, prog, q):
     rid = rep.rule("C03-WL10", "a workloop at the bottom of a hierarchy: the thread's current wlh is DISPATCH_WLH_ANON whenever the workloop is drained by an ordinary "
                    "worker thread (always, without kernel workloops), so the value of _dispatch_get_wlh() is dereferenced only after it was compared with "
@@ -690,6 +749,13 @@ def run(rep, tier="quick", srcdir=None, only=None):
         rule_TB12(rep, prog, q)
     if want("C03-MP13"):
         rule_MP13(rep, prog, q)
+    if want("C03-MP14"):
+        rule_MP14(rep, prog, q)
+    if want("C06-AI3"):
+        # an ACTIVE queue is retargeted through the barrier path that recomputes its role; the in-place path is reserved for inactive queues by the INACTIVE
+        # test of _dispatch_lane_try_inactive_suspend (shared with C06)
+        from . import C06
+        C06.rule_AI3(rep, prog, q, ex)
     if want("C02-TR7"):
         # a waiter pushed onto a busy bottom (lane or workloop) completes a barrier only if it took the lock itself (shared with C02)
         from . import C02
